@@ -332,6 +332,19 @@ def handle (j : Json) : R Json := do
         ("requires_grad", Json.bool s.requiresGrad),
         ("depth", match s.depth with | none => Json.null | some d => jn d)]
       pure (Json.mkObj [("trace", Json.arr ((traceHistory (initState t (← jonat j "depth")) ops).map st).toArray)])
+  | "backends" =>
+      -- {"actions": ["unit_scale","call","simulate",...]} -> state after each action
+      let acts ← (← jarr j "actions").toList.mapM fun v => match v.getStr? with
+        | .ok "call" => pure Action.call
+        | .ok s => match Transform.ofString? s with
+          | some t => pure (Action.t t) | none => .error s!"bad action {s}"
+        | .error e => .error e
+      let kj := fun (l : List BKind) => Json.arr (l.map fun k => Json.str k.toString).toArray
+      let st := fun (s : MState) => Json.mkObj [("backends", kj s.backends), ("rerun", Json.bool s.rerun),
+        ("executed", Json.arr (s.executed.map kj).toArray)]
+      let (_, tr) := acts.foldl (fun (acc : MState × List Json) a =>
+        let s' := act acc.1 a; (s', acc.2 ++ [st s'])) (MState.fresh, [])
+      pure (Json.mkObj [("trace", Json.arr tr.toArray)])
   | "groups" => groupsCmd j
   | "zerostep" =>
       let lr ← jflt j "lr"; let wd ← jflt j "wd"; let p ← jflt j "p"
